@@ -158,7 +158,40 @@ class Engine:
             return viol, 0, "\n".join(keep[-25:])
         return viol, consumed, ""
 
+    def split_big(self, outdir, limit=120000):
+        # TLC reads a whole trace into memory: cut very long shards at scenario boundaries
+        for p in sorted(glob.glob(os.path.join(outdir, "trace-*.ndjson"))):
+            if os.path.getsize(p) < 40_000_000:
+                continue
+            has_reset = False
+            with open(p) as f:
+                for i, line in enumerate(f):
+                    if '"ev":"reset"' in line:
+                        has_reset = True
+                        break
+                    if i > 50:
+                        break
+            part, n, out = 0, 0, None
+            size = 0
+            with open(p) as f:
+                for line in f:
+                    boundary = (not has_reset) or ('"ev":"reset"' in line)
+                    if out is None or ((n >= limit or size > 60_000_000) and boundary):
+                        if out:
+                            out.close()
+                        out = open("%s.part%03d.ndjson" % (p[:-7], part), "w")
+                        part += 1
+                        n = 0
+                        size = 0
+                    out.write(line)
+                    n += 1
+                    size += len(line)
+            if out:
+                out.close()
+            os.remove(p)
+
     def validate_all(self, trace_spec, outdir):
+        self.split_big(outdir)
         files = sorted(glob.glob(os.path.join(outdir, "trace-*.ndjson")))
         with concurrent.futures.ThreadPoolExecutor(max_workers=16) as ex:
             res = list(ex.map(lambda p: self.validate_trace(trace_spec, p), files))
@@ -183,6 +216,8 @@ class Engine:
                 elif ev == "reset":
                     s = e.get("s", {})
                     self.cov["scenario:%s/%s" % (s.get("framing", e.get("kind", "-")), s.get("faultKind", "-"))] += 1
+                elif ev == "tunnelreq":
+                    self.cov["tunnelreq:%s/hops=%s/%s" % (e.get("backend"), e.get("hops"), e.get("res"))] += 1
                 elif ev == "wdsched":
                     self.cov["wdsched:%s" % ("realised" if e.get("realised") else "not-realised")] += 1
                 elif ev == "tls":
